@@ -30,6 +30,8 @@ const simlockPath = "github.com/ory/keto/verifsim/simlock"
 func main() {
 	root := flag.String("root", "/repo", "module root")
 	out := flag.String("out", "", "output directory")
+	var extra multi
+	flag.Var(&extra, "file", "additional single file to instrument (absolute path, e.g. in the module cache); repeatable")
 	flag.Parse()
 	if *out == "" || flag.NArg() == 0 {
 		fmt.Fprintln(os.Stderr, "usage: lockyield -root DIR -out DIR subdir...")
@@ -84,12 +86,37 @@ func main() {
 			fatal(err)
 		}
 	}
+	for _, p := range extra {
+		src, err := os.ReadFile(p)
+		if err != nil {
+			fatal(err)
+		}
+		rel := filepath.Join(filepath.Base(filepath.Dir(p)), filepath.Base(p))
+		res, n, err := rewrite(p, rel, src)
+		if err != nil {
+			fatal(fmt.Errorf("%s: %w", p, err))
+		}
+		if n == 0 {
+			continue
+		}
+		dst := filepath.Join(*out, "extra__"+strings.ReplaceAll(rel, string(filepath.Separator), "__"))
+		if err := os.WriteFile(dst, res, 0o644); err != nil {
+			fatal(err)
+		}
+		overlay[p] = dst
+		sites += n
+	}
 	js, _ := json.MarshalIndent(map[string]any{"Replace": overlay}, "", " ")
 	if err := os.WriteFile(filepath.Join(*out, "overlay.json"), js, 0o644); err != nil {
 		fatal(err)
 	}
 	fmt.Printf("lockyield: %d lock sites in %d files\n", sites, len(overlay))
 }
+
+type multi []string
+
+func (m *multi) String() string     { return strings.Join(*m, ",") }
+func (m *multi) Set(v string) error { *m = append(*m, v); return nil }
 
 func fatal(err error) {
 	fmt.Fprintln(os.Stderr, "lockyield:", err)
